@@ -105,4 +105,10 @@ def rewriteWithS (mce : List (UInt8 × Bytes)) (fx : Fixes) (pattern : Bytes) : 
   | .error e => .error e
   | .ok evs => chblocks fx (resolve evs)
 
+/-- **the rewrite of the source as it is now**: the escape table and the subtraction switch are extracted from it
+    (`Generated.UBlocks`), `fx` are the five older repairs -/
+def rewriteSrc (fx : Fixes) (p : Bytes) : Except RwErr Bytes :=
+  if Generated.UBlocks.subtraction then rewriteWithS Generated.UBlocks.mceTable fx p
+  else rewriteWithM Generated.UBlocks.mceTable fx p
+
 end LyModel.XsdRe
